@@ -64,7 +64,9 @@ AddSurface(kind, R, k, c1, t, med, stop, dx, rx) ==
 (* set_asphere_coeff, tilt and decentre through their variables             *)
 IsPlane(s) == s.kind = "std" /\ s.R = INF
 SetRadiusF(sf, k, R) == [sf EXCEPT ![k].R = R]
+\* (a plane cannot be the source of a radius pickup: scale * infinity + offset is not a radius)
 SetRadius(k, R) == /\ k \in 2..N
+                   /\ (R = INF => \A j \in 1..Len(pk) : ~(pk[j].attr = "radius" /\ pk[j].src = k))
                    /\ surf' = SetRadiusF(surf, k, R)
                    /\ UNCHANGED <<lastT, wl, pk, tainted>> /\ Call("set_radius", [k |-> k, v |-> R])
 SetConic(k, c) == /\ k \in 2..N /\ ~IsPlane(surf[k])
